@@ -55,7 +55,7 @@ var profiles = map[string]Profile{
 		AllowLookup: []bool{true}, Expiry: []int64{0, 30000}, CacheKinds: []string{"empty", "partial", "undeclared", "garbage", "readerr", "complete"},
 		Deadlines: []int64{0}, LookupDl: []int64{0}, AdvanceMs: []int64{1000, 31000}, DeadRestartPct: 60,
 		Weights: map[string]int{"respond": 34, "fail": 5, "svc": 14, "advance": 8, "refresh": 10, "tick": 6, "read": 6, "handle": 6, "lookup": 8, "close": 3, "restart": 10, "cachefault": 3}, Steps: 60},
-	"expiry": {Name: "expiry", Names: allNames, Callers: allCallers, Declared: [][]string{{"a"}},
+	"expiry": {Name: "expiry", Names: allNames, Callers: allCallers, Declared: [][]string{{"a"}, {"a"}, {"a", "x"}, {"b"}},
 		AllowLookup: []bool{true}, Expiry: []int64{0, 30000, 30000}, CacheKinds: []string{"undeclared", "zerostamp", "empty"},
 		Deadlines: []int64{0}, LookupDl: []int64{0}, AdvanceMs: []int64{10000, 30000, 31000, 1000},
 		Weights: map[string]int{"respond": 35, "fail": 4, "svc": 8, "advance": 18, "refresh": 16, "read": 8, "handle": 6, "lookup": 5, "restart": 5}, Steps: 60},
@@ -91,6 +91,10 @@ func TestStoreRandom(t *testing.T) {
 		var notes []string
 		synctest.Test(t, func(t *testing.T) {
 			e := NewEnv(p.Names)
+			// construction must give up promptly when the caller's context ends whatever error the client reports for
+			// the abandoned request; lookups and polls tell their own context from somebody else's by the error, so
+			// there the client wraps context errors as the HTTP client does
+			e.OpaqueCtxErr = prof == "init" && h%3 == 2
 			curEnv.Store(e)
 			RandomHistory(e, r, p)
 			evs = e.Events()
@@ -142,11 +146,20 @@ func startWatchdog(t *testing.T, res *vh.Result, events func() []Event) (stop fu
 	quit := make(chan struct{})
 	go func() {
 		last, since := ReadsDone.Load(), time.Now()
+		lastStep, stepSince := StepsDone.Load(), time.Now()
 		for {
 			select {
 			case <-quit:
 				return
 			case <-time.After(200 * time.Millisecond):
+			}
+			if d := StepsDone.Load(); d != lastStep || StepBusy.Load() == 0 {
+				lastStep, stepSince = d, time.Now()
+			} else if time.Since(stepSince) > 30*time.Second && InRead.Load() == 0 {
+				res.Violate("store-note bubble never idle", "the virtual-time bubble did not become idle for 30 s of real time after a driver step: a goroutine of the store spins "+
+					"(e.g. retries without waiting) or waits on a lock; history so far attached", map[string]any{"history": events()})
+				res.Write(t)
+				os.Exit(0)
 			}
 			if d := ReadsDone.Load(); d != last || InRead.Load() == 0 {
 				last, since = d, time.Now()
